@@ -162,7 +162,7 @@ CHECKS = {
         assumptions=["the raw data iterator yields an item for every in-range index (C11)"],
     ),
     "C19": dict(
-        packs=["c19"], level="other",
+        packs=["c19", "c07"], level="other",
         explanation="R19.1 on every path of Triangle::scanline_intersection the set of rasterised edges is exactly (p1,p2),(p1,p3),(p2,p3) of the (y,x)-sorted vertices (only (p1,p3) in the colinear case), Triangle::contains walks the same canonical edges, sorted_yx is a 3-step compare-exchange network; "
                     "R19.3 winding symmetry of Triangle::contains: the inside test is invariant under (s, t, area) -> (-s, -t, -area), decided in the sign domain over all 18 sign cases; R19.2 polyline Points::next loads Line(start+translate, end+translate) of the next two vertices, drops one vertex per segment, and re-enters the polyline iterator with the shared joint skipped so that zero-length segments fall through. R19.4 the outline rows of a stroked triangle keep every edge: each edge intersection is merged into / becomes the left run, or after the left run refused it the right run, on every loop path of edge_intersections.",
         claim="Decides the canonical-edge clause (shared edges rasterise identically, result independent of vertex order as far as edge direction is concerned) and the segment-chaining structure of thin polylines; interior coverage, one-pixel tolerance and gap-freedom are geometry and not decided.",
@@ -263,6 +263,7 @@ DEPENDS = {
     "C10": "Also runs O0 of C12 (raw values are masked by construction: set_pixel ORs them in unmasked), the ImageRaw rules of C09 (as_image() / pixel() read through ImageRaw) and the raw load / iteration rules of C11, and the trait-default rules of C03 (Framebuffer relies on the default fill methods).",
     "C11": "Also runs O0 of C12 (raw values are masked by construction).",
     "C12": "Also runs the raw load / store rules of C11 and the framebuffer rules of C10 (into_storage / to_bytes and the raw types are what they store).",
+    "C19": "Also runs the Transform rules of C07 (a polyline is drawn at vertices + translate: translate and translate_mut must accumulate the offset) and R01.7 (no renderer asks the target for its size).",
     "C20": "Also runs the adapter / trait-default rules of C03 (MockDisplay inherits the default fill_contiguous / fill_solid / clear: every pixel of a fill must reach draw_iter for the out-of-bounds and overdraw checks to see it).",
     "C14": "Also runs the adapter / trait-default rules of C03 (glyphs reach the target through fill_contiguous / fill_solid of the font draw targets and the defaults) and the image wiring R01.5 (every glyph is drawn as an Image of a sub image).",
 }
